@@ -167,6 +167,28 @@ func init() {
 			}
 		}
 
+		c.Phase("hashes-that-look-like-encodings") // key hashes that read as a complete push (PUSHDATA1/2/4 header + matching length) or whose tail is the checksum of their head
+		for k := uint64(0); k < 60; k++ {
+			if !c.Case(k) {
+				continue
+			}
+			r := c.Rand(k)
+			h := r.Bytes(20)
+			switch k % 5 {
+			case 0:
+				copy(h, []byte{0x4c, 18})
+			case 1:
+				copy(h, []byte{0x4d, 17, 0})
+			case 2:
+				copy(h, []byte{0x4e, 15, 0, 0, 0})
+			case 3: // bytes 16..19 = checksum of (version 0x00 || bytes 0..15): the hash "already carries a checksum"
+				copy(h[16:], refaddr.Sha256d(append([]byte{0x00}, h[:16]...))[:4])
+			case 4: // the same for the test network version byte
+				copy(h[16:], refaddr.Sha256d(append([]byte{0x6f}, h[:16]...))[:4])
+			}
+			pos(c, &c15Pos{Hash: h})
+		}
+
 		c.Phase("mutations")
 		nm := 200
 		if c.Thorough {
